@@ -30,13 +30,13 @@ Definition view_of (s : state) : view :=
 (* ---------- 1. three items, depth 5 ---------- *)
 (* (a) consumer and producer eager, input slow: every item is woken through the input's waker *)
 Example three_items_slow_input :
-  let '(s, tr) := phases facts_now [everyone] (init facts_now [1;2;3] true) in
-  (s.(delivered), s.(got_end), s.(cst), terminalb facts_now f100 s, length tr) = ([101;102;103], true, CDone, true, 75).
+  let '(s, tr) := phases facts_unrepaired [everyone] (init facts_unrepaired [1;2;3] true) in
+  (s.(delivered), s.(got_end), s.(cst), terminalb facts_unrepaired f100 s, length tr) = ([101;102;103], true, CDone, true, 75).
 Proof. vm_compute. reflexivity. Qed.
 (* (b) all input available (and ended) before the first poll job runs: one job does everything *)
 Example three_items_fast_input :
-  let '(s, tr) := phases facts_now [env_first] (init facts_now [1;2;3] true) in
-  (s.(delivered), s.(got_end), s.(cst), terminalb facts_now f100 s, s.(njobs)) = ([101;102;103], true, CDone, true, 1).
+  let '(s, tr) := phases facts_unrepaired [env_first] (init facts_unrepaired [1;2;3] true) in
+  (s.(delivered), s.(got_end), s.(cst), terminalb facts_unrepaired f100 s, s.(njobs)) = ([101;102;103], true, CDone, true, 1).
 Proof. vm_compute. reflexivity. Qed.
 
 (* ---------- 2. depth 1: back-pressure ---------- *)
@@ -65,8 +65,8 @@ Proof. vm_compute. reflexivity. Qed.
 (* (a) while the producer is idle and registered with the input: the drop wakes notify_stream_closed, job 1 finds the
    core gone/closed, returns false, poll_fn := None *)
 Example drop_while_idle :
-  let '(s, tr) := phases facts_now [[AProd]; [ACDrop]; no_input_events] (init facts_now [1;2;3] false) in
-  (s.(poll_fn), s.(strong_held), s.(cst), released s, terminal_silentb facts_now f100 s) = (false, false, CGone, true, true).
+  let '(s, tr) := phases facts_unrepaired [[AProd]; [ACDrop]; no_input_events] (init facts_unrepaired [1;2;3] false) in
+  (s.(poll_fn), s.(strong_held), s.(cst), released s, terminal_silentb facts_unrepaired f100 s) = (false, false, CGone, true, true).
 Proof. vm_compute. reflexivity. Qed.
 (* (b) while the producer is throttled: poll_fn stays Some - nobody calls the poll function again - but nothing
    references the PipeContext any more once the core is gone (the only live waker, 2, was in the core) *)
@@ -101,8 +101,8 @@ Proof. vm_compute. reflexivity. Qed.
 Definition c16_witness : list actor :=
   [AProd; AProd; AProd; AProd; AProd; ACDrop; ACons; ACons; ADispose; AProd].
 Example c16_witness_leaks :
-  match run facts_now f100 (init facts_now [1] false) c16_witness with
-  | Some s => (dropped s, terminal_silentb facts_now f100 s, s.(strong_held), s.(poll_fn), s.(inp_waker),
+  match run facts_unrepaired f100 (init facts_unrepaired [1] false) c16_witness with
+  | Some s => (dropped s, terminal_silentb facts_unrepaired f100 s, s.(strong_held), s.(poll_fn), s.(inp_waker),
                is_live s 0, s.(nsc), released s)
               = (true, true, false, true, Some 0, true, Some 0, false)
   | None => False
@@ -112,8 +112,8 @@ Proof. vm_compute. reflexivity. Qed.
 Definition c16_witness_early : list actor :=
   [AProd; AProd; AProd; ACDrop; ACons; ACons; ADispose; AProd; AProd; AProd].
 Example c16_witness_early_leaks :
-  match run facts_now f100 (init facts_now [1] false) c16_witness_early with
-  | Some s => (dropped s, terminal_silentb facts_now f100 s, s.(poll_fn), released s) = (true, true, true, false)
+  match run facts_unrepaired f100 (init facts_unrepaired [1] false) c16_witness_early with
+  | Some s => (dropped s, terminal_silentb facts_unrepaired f100 s, s.(poll_fn), released s) = (true, true, true, false)
   | None => False
   end.
 Proof. vm_compute. reflexivity. Qed.
@@ -131,9 +131,9 @@ Example labels_of_witness :
   (fix go (s : state) (tr : list actor) : list (option label) :=
      match tr with
      | [] => []
-     | a :: tr => step_label facts_now f100 s a ::
-                  match step facts_now f100 s a with Some s' => go s' tr | None => [] end
-     end) (init facts_now [1] false) c16_witness
+     | a :: tr => step_label facts_unrepaired f100 s a ::
+                  match step facts_unrepaired f100 s a with Some s' => go s' tr | None => [] end
+     end) (init facts_unrepaired [1] false) c16_witness
   = [Some LNone; Some LPollFn; Some LStream; Some LStream; Some LInput; Some LStream; Some LNone; Some LNone; Some LNone;
      Some LStream].
 Proof. vm_compute. reflexivity. Qed.
